@@ -74,3 +74,80 @@ Proof.
   apply (do_request_cleared pe b q f mp k Hq); [|exact He].
   apply (proj2 (kinv_other_host e pe mp k _ Hd)). exact Hi.
 Qed.
+
+(* ------------------------------------------------------------------ what the browser holds after a logout (C05, C14) *)
+
+(* one party: after any history of requests that all have the same matching ingress path, a logout / local logout /
+   front-channel logout that is not answered through the error handler leaves no session cookie for any URL at any time *)
+Lemma jar_after_logout e steps dt q f mp trust now u :
+  Forall (fun s => kind_ok e mp (snd (fst s)) CkSession) steps -> kind_ok e mp q CkSession ->
+  q_ep q = EpLogout \/ q_ep q = EpLogoutLocal \/ q_ep q = EpFrontChannel ->
+  let b0 := sleep (run_jar_seq e {| b_jar := []; b_now := 0; b_session := false |} steps) dt in
+  rs_kind (fst (do_request e b0 q f)) = CrOther ->
+  jar_cookie trust now u (b_jar (snd (do_request e b0 q f))) (cookie_name (e_cfg e) CkSession) = None.
+Proof.
+  intros Hs Hq Hep b0 Hk. apply no_named_not_sent.
+  apply (history_cleared e steps dt q f mp CkSession Hs Hq).
+  rewrite do_request_response in *. apply logout_clears_session; assumption.
+Qed.
+
+(* the same for an environment built from a configuration whose ingresses parse *)
+Lemma jar_after_logout_same_path cfg ings e steps dt q f mp trust now u :
+  parse_ingresses_full cfg = Some ings -> e_cfg e = cfg -> e_ingresses e = ings ->
+  (cf_sso_server cfg = true \/
+   Forall (fun s => eff_path (e_mp e (q_path (snd (fst s)))) = eff_path mp) steps /\
+   eff_path (e_mp e (q_path q)) = eff_path mp) ->
+  q_ep q = EpLogout \/ q_ep q = EpLogoutLocal \/ q_ep q = EpFrontChannel ->
+  let b0 := sleep (run_jar_seq e {| b_jar := []; b_now := 0; b_session := false |} steps) dt in
+  rs_kind (fst (do_request e b0 q f)) = CrOther ->
+  jar_cookie trust now u (b_jar (snd (do_request e b0 q f))) (cookie_name (e_cfg e) CkSession) = None.
+Proof.
+  intros Hp Hc Hi Hs Hep.
+  apply (jar_after_logout e steps dt q f mp trust now u); [| |exact Hep].
+  - apply Forall_forall. intros s Hin. apply (kind_ok_of_same_path cfg ings e mp _ CkSession Hp Hc Hi eq_refl).
+    destruct Hs as [Hs|[Hs _]]; [now left|right]. exact (proj1 (Forall_forall _ _) Hs s Hin).
+  - apply (kind_ok_of_same_path cfg ings e mp _ CkSession Hp Hc Hi eq_refl).
+    destruct Hs as [Hs|[_ Hs]]; [now left|now right].
+Qed.
+
+(* both parties of an SSO deployment: a logout at the server, or relayed through the proxy *)
+Lemma jar_after_logout_sso_proxy e pe steps dt (px : bool) q f mp trust now u :
+  same_deployment e pe mp CkSession ->
+  Forall (px_kind_ok e pe mp CkSession) steps -> kind_ok (if px then pe else e) mp q CkSession ->
+  (if px then q_ep q = EpLogoutLocal \/ q_ep q = EpFrontChannel
+   else q_ep q = EpLogout \/ q_ep q = EpLogoutLocal \/ q_ep q = EpFrontChannel) ->
+  let b0 := sleep (run_jar_seq_px e pe {| b_jar := []; b_now := 0; b_session := false |} steps) dt in
+  rs_kind (fst (px_step e pe px b0 q f)) = CrOther ->
+  jar_cookie trust now u (b_jar (snd (px_step e pe px b0 q f))) (cookie_name (e_cfg e) CkSession) = None.
+Proof.
+  intros Hd Hs Hq Hep b0 Hk. apply no_named_not_sent.
+  apply (px_history_cleared e pe steps dt px q f mp CkSession Hd Hs Hq).
+  - intros ->. exact Hep.
+  - fold b0. unfold px_step in *. destruct px.
+    + assert (Hrel : do_request_proxy pe b0 q f = do_request pe b0 q f).
+      { unfold do_request_proxy. destruct Hep as [-> | ->]; reflexivity. }
+      rewrite Hrel in *. rewrite do_request_response in *. destruct Hd as [Hc _]. rewrite <- Hc.
+      apply logout_clears_session; [|exact Hk]. cbn [r_ep build_request]. tauto.
+    + rewrite do_request_response in *. apply logout_clears_session; assumption.
+Qed.
+
+(* ------------------------------------------------------------------ scope of the SSO server's cookies (C16) *)
+
+(* every Set-Cookie header of every response of every handler of an SSO server: Domain = sso.domain, Path=/ *)
+Lemma sso_server_cookies_domain_scoped c r sc : cf_sso_server c = true -> In sc (rs_cookies (handle c r)) ->
+  c_domain sc = cf_sso_domain c /\ c_path sc = slash.
+Proof.
+  intros Hs Hin. pose proof (proj1 (Forall_forall _ _) (handle_sites c r) sc Hin) as (s & v & m & ->).
+  now apply site_scope_sso.
+Qed.
+
+(* ... and so is everything an SSO proxy of the deployment relays to the browser (it sets no cookie of its own) *)
+Lemma sso_proxy_relays_domain_scoped pe b q f sc : cf_sso_server (e_cfg pe) = true ->
+  In sc (rs_cookies (fst (do_request_proxy pe b q f))) ->
+  c_domain sc = cf_sso_domain (e_cfg pe) /\ c_path sc = slash.
+Proof.
+  intros Hs Hin. unfold do_request_proxy in Hin.
+  destruct (q_ep q);
+    first [ rewrite do_request_response in Hin; exact (sso_server_cookies_domain_scoped _ _ _ Hs Hin)
+          | cbn [fst rs_cookies] in Hin; contradiction ].
+Qed.
